@@ -3,6 +3,7 @@ package bot
 import (
 	"errors"
 	"sync"
+	"sync/atomic"
 
 	"github.com/google/uuid"
 
@@ -69,6 +70,7 @@ type Conn struct {
 	send, recv queue.Queue[pk.Packet]
 	pool       sync.Pool // pool of recv packet data
 	rerr       error
+	werr       atomic.Value // error: why the writer goroutine stopped
 }
 
 func warpConn(c *net.Conn, qr, qw queue.Queue[pk.Packet]) *Conn {
@@ -101,6 +103,8 @@ func warpConn(c *net.Conn, qr, qw queue.Queue[pk.Packet]) *Conn {
 				break
 			}
 			if err := c.WritePacket(p); err != nil {
+				// nothing will reach the socket any more: later WritePacket calls report why
+				wc.werr.Store(err)
 				break
 			}
 		}
@@ -119,6 +123,9 @@ func (c *Conn) ReadPacket(p *pk.Packet) error {
 }
 
 func (c *Conn) WritePacket(p pk.Packet) error {
+	if err, _ := c.werr.Load().(error); err != nil {
+		return err
+	}
 	ok := c.send.Push(p)
 	if !ok {
 		return errors.New("send queue is full or closed")
